@@ -79,11 +79,15 @@ CallWord(inv) == IF inv.t = "icall" /\ inv.kind = "bridge" THEN <<"bridge">>
 EventSpec(ev) == <<ev.id>> \o (IF ev.poly THEN <<"*">> ELSE <<>>) \o (IF ev.meaning # "" THEN <<":", ev.meaning>> ELSE <<>>)
                  \o (IF ev.hasdata THEN <<"(">> \o Params(ev.data) \o <<")">> ELSE <<>>)
 
+\* an instance-based operation may be invoked with the word transform in front (statement field tw); the syntax tree
+\* does not record the word
+CallWordS(s, inv) == IF "tw" \in DOMAIN s THEN <<"?transform">> ELSE CallWord(inv)
 RECURSIVE US(_), UB(_)
 UB(b) == Concat([i \in DOMAIN b |-> US(b[i]) \o <<";">>])
 US(s) ==
-    CASE s.t = "assign" -> (IF CallWord(s.e) # <<>> THEN CallWord(s.e) ELSE <<"?assign">>) \o UE(s.lhs) \o <<"=">> \o UE(s.e)
-      [] s.t = "call" -> CallWord(s.inv) \o UE(s.inv)
+    CASE s.t = "assign" -> (IF CallWordS(s, s.e) # <<>> THEN CallWordS(s, s.e) ELSE <<"?assign">>) \o UE(s.lhs) \o <<"=">> \o UE(s.e)
+      [] s.t = "call" -> CallWordS(s, s.inv) \o UE(s.inv)
+      [] s.t = "empty" -> <<>>                      \* the empty statement: nothing in front of its semicolon
       [] s.t = "break" -> <<"break">>
       [] s.t = "continue" -> <<"continue">>
       [] s.t = "control" -> <<"control", "stop">>
@@ -115,11 +119,18 @@ Unparse(body) == UB(body)
 
 \* statements with redundant parentheses removed from all their expressions
 StripPs(ps) == [i \in DOMAIN ps |-> [n |-> ps[i].n, e |-> Strip(ps[i].e)]]
+\* What the syntax tree does not record is normalised as well: empty statements leave no node, the word transform in
+\* front of an instance-based invocation, the * of a polymorphic event and the word assigner (read as class) are dropped.
+\* a phrase may be written as an identifier; the tree holds it in ticks
+Tick(ph) == IF ph = "" \/ SubSeq(ph, 1, 1) = "'" THEN ph ELSE "'" \o ph \o "'"
+StripEv(ev) == [ev EXCEPT !.poly = FALSE, !.meaning = Tick(ev.meaning), !.data = StripPs(ev.data),
+                           !.hasdata = (ev.data # <<>>)]       \* ( ) around no parameter is not recorded
+ClassWord(w) == IF w = "assigner" THEN "class" ELSE w
 RECURSIVE StripS(_), StripB(_)
-StripB(b) == [i \in DOMAIN b |-> StripS(b[i])]
+StripB(b) == LET q == SelectSeq(b, LAMBDA x : x.t # "empty") IN [i \in DOMAIN q |-> StripS(q[i])]
 StripS(s) ==
-    CASE s.t = "assign" -> [s EXCEPT !.lhs = Strip(s.lhs), !.e = Strip(s.e)]
-      [] s.t = "call" -> [s EXCEPT !.inv = Strip(s.inv)]
+    CASE s.t = "assign" -> [t |-> "assign", lhs |-> Strip(s.lhs), e |-> Strip(s.e)]
+      [] s.t = "call" -> [t |-> "call", inv |-> Strip(s.inv)]
       [] s.t = "return" -> IF s.has THEN [s EXCEPT !.e = Strip(s.e)] ELSE s
       [] s.t = "if" -> [s EXCEPT !.c = Strip(s.c), !.b = StripB(s.b),
                                  !.elifs = [i \in DOMAIN s.elifs |-> [c |-> Strip(s.elifs[i].c), b |-> StripB(s.elifs[i].b)]],
@@ -127,9 +138,12 @@ StripS(s) ==
       [] s.t = "while" -> [s EXCEPT !.c = Strip(s.c), !.b = StripB(s.b)]
       [] s.t = "for" -> [s EXCEPT !.b = StripB(s.b)]
       [] s.t = "select_from" -> IF s.haswhere THEN [s EXCEPT !.w = Strip(s.w)] ELSE s
-      [] s.t = "select_related" -> IF s.haswhere THEN [s EXCEPT !.h = Strip(s.h), !.w = Strip(s.w)] ELSE [s EXCEPT !.h = Strip(s.h)]
-      [] s.t \in {"gen_class", "create_ev_class"} -> [s EXCEPT !.ev.data = StripPs(s.ev.data)]
-      [] s.t \in {"gen_inst", "create_ev_inst"} -> [s EXCEPT !.ev.data = StripPs(s.ev.data), !.to = Strip(s.to)]
+      [] s.t = "select_related" ->
+            LET ch == [i \in DOMAIN s.chain |-> [s.chain[i] EXCEPT !.ph = Tick(s.chain[i].ph)]]
+            IN IF s.haswhere THEN [s EXCEPT !.h = Strip(s.h), !.w = Strip(s.w), !.chain = ch] ELSE [s EXCEPT !.h = Strip(s.h), !.chain = ch]
+      [] s.t \in {"relate", "unrelate"} -> [s EXCEPT !.ph = Tick(s.ph)]
+      [] s.t \in {"gen_class", "create_ev_class"} -> [s EXCEPT !.ev = StripEv(s.ev), !.word = ClassWord(s.word)]
+      [] s.t \in {"gen_inst", "create_ev_inst"} -> [s EXCEPT !.ev = StripEv(s.ev), !.to = Strip(s.to)]
       [] s.t = "gen_pre" -> [s EXCEPT !.e = Strip(s.e)]
       [] s.t = "send_event" -> [s EXCEPT !.ps = StripPs(s.ps), !.to = Strip(s.to)]
       [] OTHER -> s
@@ -182,6 +196,7 @@ EvData(ev, a) == IF ev.hasdata THEN RPs(ev.data, a + 1 + (IF ev.poly THEN 1 ELSE
 RECURSIVE RS(_, _), RB(_, _), RElifs(_, _)
 \* a block whose first token is at index a
 RB(b, a) == IF b = <<>> THEN [n |-> 0, rs |-> <<>>]
+            ELSE IF b[1].t = "empty" THEN LET rest == RB(Tail(b), a + 1) IN [n |-> 1 + rest.n, rs |-> rest.rs]
             ELSE LET X == RS(b[1], a)
                      rest == RB(Tail(b), a + X.n + 1)
                  IN [n |-> X.n + 1 + rest.n, rs |-> X.rs \o rest.rs]
@@ -196,7 +211,7 @@ RS(s, a) ==
     IN CASE s.t = "assign" -> LET L == RE(s.lhs, a + 1)
                                   R == RE(s.e, a + 1 + L.n + 1)
                               IN [n |-> n, rs |-> <<own>> \o L.rs \o R.rs]
-         [] s.t = "call" -> [n |-> n, rs |-> <<own>> \o RE(s.inv, a + Len(CallWord(s.inv))).rs]
+         [] s.t = "call" -> [n |-> n, rs |-> <<own>> \o RE(s.inv, a + Len(CallWordS(s, s.inv))).rs]
          [] s.t = "return" -> [n |-> n, rs |-> <<own>> \o (IF s.has THEN RE(s.e, a + 1).rs ELSE <<>>)]
          [] s.t = "if" -> LET C == RE(s.c, a + 1)
                               B == RB(s.b, a + 1 + C.n + 1)
